@@ -45,7 +45,7 @@ class C17:
     rule = ("all 81 placements of {regular file, directory, nothing} of one name in four directories x search-path sequences "
             "(all sequences of length 0-2 and sampled ones of length 3-4 over the four directories, a missing directory, "
             "duplicates and a tilde-prefixed literal directory) x names (relative, sub/relative, absolute existing / missing "
-            "/ directory - each with a decoy regular file at <search dir>/<that absolute name> -, empty, ~, ~/x, ~root, ~root/x, ~bin/ls, ~user/a/b, ~nosuchuser/x, ~ + 300 bytes, ./name, ../dir/name, dot files); every file carries a marker "
+            "/ directory - each with a decoy regular file at <search dir>/<that absolute name> -, empty, ~, ~/x, ~root, ~root/x, ~bin/ls, ~user/a/b, ~nosuchuser/x, ~ + 300 bytes, ./name, ../dir/name, dot files, symbolic links to a file / to nothing / to a directory); every file carries a marker "
             "value; each case under two heap fill patterns. Oracle: file model (first directory in the order added that "
             "holds a regular file; absolute names bypass the list; tilde per passwd database, unknown user unchanged); "
             "cfg_parse(name) and include(name) load the same marker; both fills give identical answers. Non-trivial = >= 2 "
@@ -88,6 +88,13 @@ class C17:
                 s.add("mkfifo", hx(os.path.join(root, "d1", "fifo.conf")))            # neither a regular file nor a directory
                 s.add("mkfile", hx(os.path.join(root, "d3", "fifo.conf")), hx("marker = 77\n"))
                 s.add("mkdir", hx(os.path.join(root, "abs_dir")))
+                # symbolic links: to a regular file (counts as one), to nothing, to a directory
+                s.add("symlink", hx("../abs_exists.conf"), hx(os.path.join(root, "d2", "link.conf")))
+                s.add("mkfile", hx(os.path.join(root, "d4", "link.conf")), hx("marker = 41\n"))
+                s.add("symlink", hx("no-such-target"), hx(os.path.join(root, "d1", "dangling.conf")))
+                s.add("mkfile", hx(os.path.join(root, "d3", "dangling.conf")), hx("marker = 42\n"))
+                s.add("symlink", hx("sub"), hx(os.path.join(root, "d1", "linkdir.conf")))
+                s.add("mkfile", hx(os.path.join(root, "d4", "linkdir.conf")), hx("marker = 43\n"))
                 # a dot file in one search directory only, with a decoy of the same name in the working directory
                 s.add("mkfile", hx(os.path.join(root, "d2", ".dot.conf")), hx("marker = 30\n"))
                 s.add("mkfile", hx(os.path.join(root, ".dot.conf")), hx("marker = 31\n"))
@@ -242,6 +249,7 @@ class C17:
     NAMES = [TARGET, "sub/" + TARGET, "@ROOT@/abs_exists.conf", "@ROOT@/abs_missing.conf", "@ROOT@/abs_dir", "@ROOT@/d2/" + TARGET, "",
              "~", "~/x", "~root", "~root/x", "~bin/ls", "~nosuchuser9/x", "~nosuchuser9/td/" + TARGET, "~" + "a" * 300, "~r", "~roo", "~rootx/y",
              "nosuch.conf", ".", "d1", "d1/" + TARGET, "/dev/null", "fifo.conf", "@ROOT@/d1/fifo.conf",
+             "link.conf", "dangling.conf", "linkdir.conf", "@ROOT@/d2/link.conf", "@ROOT@/d1/dangling.conf",
              "./" + TARGET, ".dot.conf", "../@BASE@/d2/" + TARGET, "sub/../" + TARGET, "~root/x/y", "~bin/a/b/c.conf", "~root//x", "~/x/y/z"]
 
     def run(self, r):
